@@ -82,10 +82,8 @@ def _one(args):
         try:
             ids = _identities(prop, Repo(root, overrides=ov))
         except AnalysisError as e:
-            if seed.kind == "fault":
-                # the rule refuses to run on the broken variant: detected, fail-closed
-                return (seed.name, seed.kind, "ok", f"fail-closed: {e}")
-            return (seed.name, seed.kind, "FAILED", f"analysis error on neutral variant: {e}")
+            # a broken variant must be *reported* (exit 1), not merely refused (exit 2)
+            return (seed.name, seed.kind, "FAILED", f"analysis error on variant: {e}")
         new = {i: r for i, r in ids.items() if i not in base}
         gone = [i for i in base if i not in ids]
         if seed.kind == "fault":
